@@ -16,6 +16,8 @@ import (
 	"sort"
 	"strings"
 	"sync"
+	"testing"
+	"testing/synctest"
 	"time"
 
 	"github.com/libp2p/go-libp2p/core/network"
@@ -33,7 +35,8 @@ import (
 //	"err"   the operation returns an injected error (read error / write error); sticky
 //	"eof"   the network path is cut: this end reads EOF / writes fail, the other end reads EOF after
 //	        draining what was already delivered
-//	"stall" this and every later operation on this end blocks until its deadline or a local Close
+//	"stall" the path is black-holed from this operation on: reads on this end block until their deadline
+//	        or a local Close, writes are swallowed (the send buffer takes them), nothing is delivered
 //
 // Trigger kinds (the operation itself proceeds, Trig is called once, from the I/O goroutine):
 //
@@ -194,18 +197,16 @@ func (e *End) Write(b []byte) (int, error) {
 		case e.wbroken:
 			return 0, errBroken
 		}
-		if !e.stalled {
-			if e.peer.closed {
-				return 0, errBroken
-			}
-			e.peer.in = append(e.peer.in, b...)
-			e.p.cond.Broadcast()
+		if e.stalled {
+			// a black-holed path: the kernel's send buffer takes the bytes, nothing is ever delivered
 			return len(b), nil
 		}
-		if !e.wdl.IsZero() && !time.Now().Before(e.wdl) {
-			return 0, timeoutErr{}
+		if e.peer.closed {
+			return 0, errBroken
 		}
-		e.p.cond.Wait()
+		e.peer.in = append(e.peer.in, b...)
+		e.p.cond.Broadcast()
+		return len(b), nil
 	}
 }
 
@@ -567,4 +568,88 @@ func (m *MuxSpy) Stage(e *End) string {
 		return "muxed"
 	}
 	return ""
+}
+
+// ---------------------------------------------------------------------------------------------
+// RunBubble runs f in its own synctest bubble under a REAL-time watchdog.
+//
+//	deadlock != "": the bubble could not finish: a goroutine of the scenario is durably blocked for ever
+//	                (synctest's deadlock panic, recovered here) - a leaked goroutine / a call that never returns
+//	hung != "":     the bubble made no progress in real time: some goroutine is blocked on something synctest
+//	                does not treat as durable (typically a sync.Mutex held by a goroutine that waits for
+//	                virtual time, which then cannot advance) - inconclusive, never a verdict; the goroutines
+//	                of that bubble are abandoned
+func RunBubble(t *testing.T, limit time.Duration, f func(t *testing.T)) (deadlock, hung string) {
+	done := make(chan string, 1)
+	var idMu sync.Mutex
+	bubble := ""
+	go func() {
+		msg := ""
+		defer func() {
+			if r := recover(); r != nil {
+				msg = fmt.Sprint(r)
+			}
+			done <- msg
+		}()
+		synctest.Test(t, func(t *testing.T) {
+			buf := make([]byte, 512)
+			n := runtime.Stack(buf, false)
+			if m := reBubble.FindStringSubmatch(firstLine(string(buf[:n]))); m != nil {
+				idMu.Lock()
+				bubble = "synctest bubble " + m[1] + "]"
+				idMu.Unlock()
+			}
+			f(t)
+		})
+	}()
+	select {
+	case msg := <-done:
+		return msg, ""
+	case <-time.After(limit):
+		// which goroutines of a bubble are persistently NOT durably blocked (same goroutine, same state, in
+		// three dumps)?  none: every goroutine waits for something that never comes and only periodic
+		// timers keep the bubble alive - the scenario is blocked for ever (a verdict, like synctest's own
+		// deadlock panic).  some: synctest cannot advance time past them (sync.Mutex etc.): inconclusive.
+		persistent := map[string]int{}
+		var blocked []string
+		for i := 0; i < 3; i++ {
+			buf := make([]byte, 4<<20)
+			n := runtime.Stack(buf, true)
+			blocked = blocked[:0]
+			for _, b := range strings.Split(string(buf[:n]), "\n\n") {
+				h := firstLine(b)
+				idMu.Lock()
+				mine := bubble != "" && strings.Contains(h, bubble)
+				idMu.Unlock()
+				if !mine {
+					continue
+				}
+				if strings.Contains(h, "(durable)") {
+					top := ""
+					if ls := strings.SplitN(b, "\n", 3); len(ls) > 1 {
+						top = ls[1]
+					}
+					if !strings.Contains(b, "resourceManager).background") && !strings.HasPrefix(top, "testing/synctest.testingSynctestTest(") &&
+						!strings.HasPrefix(top, "internal/synctest.Run(") {
+						blocked = append(blocked, summarise(b))
+					}
+					continue
+				}
+				persistent[h+" "+summarise(b)]++
+			}
+			time.Sleep(150 * time.Millisecond)
+		}
+		var keep []string
+		for k, n := range persistent {
+			if n == 3 {
+				keep = append(keep, k)
+			}
+		}
+		sort.Strings(keep)
+		sort.Strings(blocked)
+		if len(keep) == 0 {
+			return "blocked for ever (only periodic timers fire): " + strings.Join(blocked, " || "), ""
+		}
+		return "", "no progress in real time; not durably blocked: " + strings.Join(keep, " || ")
+	}
 }
